@@ -97,24 +97,38 @@ def norm_path(arch, path):
     return "/".join("*" if c.isdigit() else c for c in comps)
 
 
-def norm_errs(arch, errs):
+def norm_path_parents(path):
+    """Rendering stated by Dev_MsgPackStreamParentKeyView: every component but the field's own key -> '?'
+    (parent keys are foreign bytes which may look like anything, also like a position)."""
+    comps = path.split("/")
+    return "/".join(c if i in (0, len(comps) - 1) else "?" for i, c in enumerate(comps))
+
+
+def norm_errs(arch, errs, garbled=False):
     """Observed map (in map order) -> dict normalised path -> messages (entries with equal normalised path merged in order)."""
     d = {}
     for path, msgs in errs:
-        d.setdefault(norm_path(arch, path), []).extend(msgs)
+        d.setdefault(norm_path_parents(path) if garbled else norm_path(arch, path), []).extend(msgs)
     return d
 
 
-def matches(exp, arch, o):
+def matches(exp, arch, o, garbled=False):
     """Is observation o equal to the prescribed observation exp?  (comparison only)"""
     if "e" in o or o["exc"] != exp["exc"]:
         return False
     want = exp["errsxml"] if arch == "xml" else exp["errs"]
-    if norm_errs(arch, o["errs"]) != {p: m for p, m in want}:
+    if norm_errs(arch, o["errs"], garbled) != {p: m for p, m in want}:
         return False
     if exp["vals"] == ["unspecified"]:
         return True
     return len(exp["vals"]) == len(o["vals"]) and all(e == ["any"] or e == v for e, v in zip(exp["vals"], o["vals"]))
+
+
+def dev_matches(d, arch, o):
+    """Observation equals what the spec prescribes under the named deviation d (on the archive/medium the deviation names)."""
+    if d.get("only") == "msgpack-stream":
+        return arch == "msgpack" and o.get("medium", "mem") != "mem" and matches(d["exp"], arch, o, garbled=True)
+    return matches(d["exp"], arch, o)
 
 
 def short(s):
@@ -134,7 +148,7 @@ def judge(chk, triples, full_cases=200):
             continue
         dev = None
         for d in s.get("expdev", []):
-            if matches(d["exp"], arch, o):
+            if dev_matches(d, arch, o):
                 dev = d["dev"]
         want = exp["errsxml"] if arch == "xml" else exp["errs"]
         desc = "%s archive (%s), %s: expected %s %s, observed %s" % (
@@ -176,7 +190,7 @@ class Stats:
             self.places.add(s["place"])
             self.caps.add(s["cap"])
             self.exc.add(s["exp"]["exc"][0])
-            self.dev += 1 if s["expdev"] else 0
+            self.dev += 1 if any(d["dev"] == "Dev_ValidationCapTruncatesLastField" for d in s["expdev"]) else 0
             for a in s["archs"]:
                 self.archs[a] = self.archs.get(a, 0) + 1
             for f in s["fields"]:
@@ -275,7 +289,7 @@ def replay(path):
     rc = 0
     for sc, arch, o in replay_scenarios([s], "replay", withdoc=True, media=[case.get("medium", "mem")]):
         ok = matches(sc["exp"], arch, o)
-        dev = [d["dev"] for d in sc["expdev"] if matches(d["exp"], arch, o)]
+        dev = [d["dev"] for d in sc["expdev"] if dev_matches(d, arch, o)]
         print("scenario : %s" % short(sc))
         print("archive  : %s (%s)" % (arch, o["medium"]))
         print("document : %s" % o.get("doc"))
